@@ -443,6 +443,10 @@ fn witness_cases() -> Vec<(Value, Value)> {
     let r5: Vec<Vec<Val>> = (0..3).map(|k| row(k, k, 2)).collect();
     push("C22-F5", Catalog { tables: vec![table(0, ColTy::I64, l5), table(1, ColTy::I64, r5)] },
          Shape { jt: JoinType::Semi, form: Form::Join, nkeys: 1, resid: Resid::Ne, mixed: false, nested: None }, "mem1");
+    // F6  VARCHAR key, probe input = a join output (its build-side strings arrive dictionary-encoded): no match
+    let srow = |id: i64, a: &str, v: i64| vec![i(id), Val::S(a.into()), i(0), i(0), i(v)];
+    push("C22-F6", Catalog { tables: vec![table(0, ColTy::Str, vec![srow(0, "a", 1)]), table(1, ColTy::Str, vec![srow(0, "a", 2), srow(1, "b", 2)])] },
+         Shape { jt: JoinType::Inner, form: Form::Join, nkeys: 1, resid: Resid::None, mixed: false, nested: Some(JoinType::Left) }, "mem1");
     out
 }
 
